@@ -12,7 +12,7 @@ import json
 import os
 
 from ..engine import argswap
-from ..engine.program import src, dotted, walk_no_nested
+from ..engine.program import src, dotted, walk_no_nested, call_name
 
 _VERIF = os.path.dirname(os.path.dirname(os.path.dirname(os.path.abspath(__file__))))
 
@@ -45,6 +45,8 @@ def run(prog, ctx, pid):
                  "parameters %d and %d of %s: the two values are passed crossed" % (i + 1, j + 1, src(c.args[i]), src(c.args[j]), j + 1, i + 1, cq))
     u2(prog, ctx, files)
     u3(prog, ctx, files)
+    u6(prog, ctx, files)
+    u7(prog, ctx, files, pid)
     if "isoquant.py" in files:
         u4(prog, ctx)
         u5(prog, ctx)
@@ -254,6 +256,167 @@ def u4(prog, ctx):
 
 # option <- preset field pairs whose names differ, confirmed by reading (isoquant.py)
 WIRING_OK = {("report_novel_unspliced", "novel_monoexonic"), ("report_canonical_strategy", "report_canonical")}
+
+
+def numeric_options(prog):
+    """Run options whose value is a number - 0 included: declared with type=int / type=float, given a numeric default, or assigned a number
+    (directly or as a numeric field of a preset record) in isoquant.py."""
+    m = prog.module("isoquant.py")
+    out = set()
+    for c in ast.walk(m.tree):
+        if isinstance(c, ast.Call) and c.args and isinstance(c.args[0], ast.Constant) and isinstance(c.args[0].value, str) \
+                and c.args[0].value.startswith("--"):
+            kw = {k.arg: k.value for k in c.keywords if k.arg}
+            numeric = (isinstance(kw.get("type"), ast.Name) and kw["type"].id in ("int", "float")) or \
+                (isinstance(kw.get("default"), ast.Constant) and type(kw["default"].value) in (int, float))
+            if numeric:
+                dest = kw["dest"].value if isinstance(kw.get("dest"), ast.Constant) else c.args[0].value[2:].replace("-", "_")
+                out.add(dest)
+    # numeric preset fields: namedtuple instances with numeric constants at the field's position
+    fields_of = {}
+    for st in ast.walk(m.tree):
+        if isinstance(st, ast.Assign) and isinstance(st.value, ast.Call) and (dotted(st.value.func) or "").endswith("namedtuple") \
+                and len(st.value.args) >= 2 and isinstance(st.value.args[1], (ast.Tuple, ast.List)) and isinstance(st.targets[0], ast.Name):
+            fields_of[st.targets[0].id] = [e.value for e in st.value.args[1].elts if isinstance(e, ast.Constant)]
+    num_fields = set()
+    for c in ast.walk(m.tree):
+        if isinstance(c, ast.Call) and isinstance(c.func, ast.Name) and c.func.id in fields_of:
+            for i, a in enumerate(c.args):
+                if isinstance(a, ast.Constant) and type(a.value) in (int, float) and i < len(fields_of[c.func.id]):
+                    num_fields.add(fields_of[c.func.id][i])
+            for k in c.keywords:
+                if k.arg and isinstance(k.value, ast.Constant) and type(k.value.value) in (int, float):
+                    num_fields.add(k.arg)
+    for st in ast.walk(m.tree):
+        if isinstance(st, ast.Assign) and len(st.targets) == 1 and (dotted(st.targets[0]) or "").startswith("args."):
+            opt = dotted(st.targets[0])[5:]
+            if isinstance(st.value, ast.Constant) and type(st.value.value) in (int, float):
+                out.add(opt)
+            elif isinstance(st.value, ast.Attribute) and st.value.attr in num_fields:
+                out.add(opt)
+    return out
+
+
+def u6(prog, ctx, files):
+    """0 is a legitimate value of a numeric run option (`--delta 0`, the `exact` preset): `<option> or <default>` replaces it silently."""
+    ctx.rule("U6", "no numeric run option (declared type=int/float, numeric default, or set from a numeric preset field) is read through "
+                   "`<option> or <fallback>` in value position: the value 0 would be replaced by the fallback")
+    nums = numeric_options(prog)
+    if len(nums) < 10:
+        ctx.undecided("U6", prog.module("isoquant.py").tree, "isoquant.py", "only %d numeric options found" % len(nums))
+        return
+    n = 0
+    for m, q, f in prog.all_functions():
+        if m.rel not in files:
+            continue
+        for b in walk_no_nested(f):
+            if not (isinstance(b, ast.BoolOp) and isinstance(b.op, ast.Or)):
+                continue
+            first = b.values[0]
+            opt = None
+            if isinstance(first, ast.Attribute) and first.attr in nums and (dotted(first.value) or "").split(".")[-1] in ("params", "args"):
+                opt = first.attr
+            elif isinstance(first, ast.Call) and call_name(first) == "getattr" and len(first.args) >= 2 and isinstance(first.args[1], ast.Constant) \
+                    and first.args[1].value in nums:
+                opt = first.args[1].value
+            if opt is None:
+                continue
+            par = getattr(b, "_parent", None)
+            in_test = isinstance(par, (ast.If, ast.While, ast.Assert, ast.IfExp)) and getattr(par, "test", None) is b \
+                or isinstance(par, (ast.BoolOp, ast.UnaryOp, ast.comprehension))
+            if in_test:
+                continue
+            n += 1
+            ctx.fail("U6", b, q, src(b)[:80], "the numeric option %s is read as `%s`: when the user (or the `exact` preset) sets it to 0 the "
+                     "fallback is used instead, and the run silently works with another tolerance than the one asked for" % (opt, src(b)[:60]))
+    if not n:
+        ctx.ok("U6", "anchor modules", "no numeric option (%d known) is read through `or <fallback>`" % len(nums), nontrivial=False)
+
+
+def _sound_memo(prog, m, muts):
+    """Every modification is `D[K] = V` where V depends on nothing but what K is made of (and constants): a memo of a pure function, which is
+    the same whoever filled it."""
+    from ..engine.dataflow import dependency_roots
+    for _m, _q, f, node, kind in muts:
+        par = getattr(node, "_parent", None)
+        st = getattr(par, "_parent", None)
+        if not (isinstance(par, ast.Subscript) and isinstance(st, ast.Assign) and st.targets[0] is par):
+            return False
+        key_roots = dependency_roots(f, [par.slice])
+        for r in dependency_roots(f, [st.value]):
+            base = r.split(".")[0]
+            if r in key_roots or base in {k.split(".")[0] for k in key_roots if k.split(".")[0] not in ("self", "cls")}:
+                continue
+            if base[:1].isupper() or r.isupper() or base in _m.imports or base in _m.functions \
+                    or base in ("len", "str", "int", "abs", "min", "max", "tuple", "sorted", "float", "bool"):
+                continue
+            return False
+    return True
+
+
+def u7(prog, ctx, files, pid):
+    """Process-wide mutable state in the property's anchor modules: a class-level or module-level container that functions modify outlives
+    the object / chromosome task / experiment that filled it, so results depend on what the same process handled before (the pipeline
+    hands chromosomes and experiments to a process in an order that depends on --threads)."""
+    ctx.rule("U7", "every class-level or module-level mutable container of the anchor modules that is modified at run time is (a) in the table "
+                   "of confirmed harmless ones, (b) re-initialised at the start of each chromosome task, or (c) a memo whose stored value "
+                   "depends on nothing but its key")
+    if pid in ("C10", "C06"):
+        return        # S1 / O3 decide this for the whole program
+    from . import c10 as _c10
+    from ..engine import carried
+    n = 0
+    for (cname, attr), (m, c, st, why) in sorted(carried.class_level_locations(prog).items()):
+        if m.rel not in files:
+            continue
+        acc = carried.accesses_of_class_attr(prog, cname, attr)
+        muts = [a for a in acc if a[4] in ("mutate", "write")]
+        if not muts:
+            continue
+        n += 1
+        if (cname, attr) in _c10.BENIGN_CLASS_STATE:
+            ctx.ok("U7", "%s:%d" % (m.rel, st.lineno), "%s.%s: %s" % (cname, attr, _c10.BENIGN_CLASS_STATE[(cname, attr)]))
+        elif [r for r in _c10.reset_sites(prog, cname, attr) if r[0] in ("construct_models_in_parallel", "collect_reads_in_parallel")]:
+            ctx.ok("U7", "%s:%d" % (m.rel, st.lineno), "%s.%s is re-initialised at the start of every chromosome task" % (cname, attr))
+        elif _sound_memo(prog, m, muts):
+            ctx.ok("U7", "%s:%d" % (m.rel, st.lineno), "%s.%s is a memo whose values depend on their keys only" % (cname, attr))
+        else:
+            mm = muts[0]
+            ctx.fail("U7", mm[3], mm[1], "%s.%s" % (cname, attr), "class-level %s.%s (%s) is modified here: it is shared by all objects of the "
+                     "process and outlives the chromosome task / experiment that filled it, and what is stored depends on more than the key "
+                     "it is stored under - a later object (another chromosome, region or experiment) gets values computed from "
+                     "another one's data" % (cname, attr, why))
+    for rel in sorted(files):
+        m = prog.modules.get(rel)
+        if m is None:
+            continue
+        for name, v in sorted(m.assigns.items()):
+            mutable = isinstance(v, (ast.Dict, ast.List, ast.Set)) or \
+                (isinstance(v, ast.Call) and (call_name(v) or "").split(".")[-1] in carried.MUTABLE_CTORS)
+            if not mutable:
+                continue
+            hits = []
+            for q, f in m.functions.items():
+                if name in [a.arg for a in f.args.args] or any(isinstance(s_, ast.Assign) and any(dotted(t) == name for t in s_.targets)
+                                                                for s_ in walk_no_nested(f)):
+                    continue
+                for node in walk_no_nested(f):
+                    if isinstance(node, ast.Call) and isinstance(node.func, ast.Attribute) and node.func.attr in carried.MUTATING_METHODS \
+                            and isinstance(node.func.value, ast.Name) and node.func.value.id == name:
+                        hits.append((m, q, f, node.func.value, "mutate"))
+                    if isinstance(node, ast.Subscript) and isinstance(node.ctx, ast.Store) and isinstance(node.value, ast.Name) \
+                            and node.value.id == name:
+                        hits.append((m, q, f, node.value, "mutate"))
+            if not hits:
+                continue
+            n += 1
+            if _sound_memo(prog, m, hits):
+                ctx.ok("U7", rel, "module-level %s is a memo whose values depend on their keys only" % name)
+            else:
+                ctx.fail("U7", hits[0][3], hits[0][1], "%s (module %s)" % (name, rel), "module-level %s is modified at run time: it is shared by "
+                         "everything the process handles (chromosome tasks, experiments), and what is stored depends on more than the key it "
+                         "is stored under" % name)
+    ctx.ok("U7", "anchor modules", "%d process-wide mutable locations modified at run time, all accounted for" % n, nontrivial=False)
 
 
 def u5(prog, ctx):
